@@ -97,6 +97,55 @@ def completeness(repo, tier, seed):
     return out
 
 
+def intake_caps(repo, tier, seed):
+    """The documented intake caps, written from the statement: a resilient food eaten by people is at most its share
+    of the INITIAL population's need and at most the same share of what is ACTUALLY eaten that month; its use as feed /
+    biofuel is at most its share of that round's feed / biofuel charge.  The constraints the real
+    add_percentage_intake_constraints emits for a symbolic month must be equivalent to exactly that (a missing cap
+    lets the optimiser report a percent fed no cap-respecting allocation reaches)."""
+    out = []
+    k = K
+    foods = {"seaweed": const("SEAWEED_KCALS"), "methane_scp": z3.RealVal(1), "cellulosic_sugar": z3.RealVal(1)}
+    for otype in ("to_humans", "to_animals"):
+        for store in (True, False):
+            reg = ("storage" if store else "no_storage_between_years") + "," + otype
+            T, facts, _, _, _ = get_templates(repo, store, otype)
+            facts = world_facts(facts)
+            t = T["add_percentage_intake_constraints"]
+            need0 = const("POP") * const("KCALS_MONTHLY") / 10 ** 9
+            spec = []
+            for f, ratio in foods.items():
+                up = f.upper()
+                if otype == "to_humans":
+                    cap = const(f"MAX_{up}_AS_PERCENT_KCALS_HUMANS") / 100
+                    eaten = V(f + "_to_humans")(k) * ratio
+                    spec.append(eaten <= cap * need0)
+                    spec.append(eaten <= cap * (V("consumed_kcals")(k) * const("BILLION_KCALS_NEEDED") / 100))
+                spec.append(V(f + "_feed")(k) * ratio <= const(f"MAX_{up}_AS_PERCENT_KCALS_FEED") / 100 * series_fn("feed_charged")(k))
+                spec.append(V(f + "_biofuel")(k) * ratio <= const(f"MAX_{up}_AS_PERCENT_KCALS_BIOFUEL") / 100 * series_fn("biofuel_charged")(k))
+            hyps = list(facts) + [k >= 0, k < N] + bounds(k)
+            out.append(prove(f"{P}/intake_caps[{reg}]/every_documented_cap_is_enforced", hyps + [at(t, k)], z3.And(spec)))
+            out.append(prove(f"{P}/intake_caps[{reg}]/nothing_beyond_the_documented_caps_is_enforced", hyps + spec, at(t, k)))
+            sv = z3.Solver()
+            sv.add(*(hyps + spec))
+            out.append({"name": f"{P}/intake_caps[{reg}]/caps_satisfiable", "kind": "cover", "backend": "z3", "goal": "sat", "detail": "", "seconds": 0,
+                        "status": "discharged" if sv.check() == z3.sat else "failed"})
+    return out
+
+
+def feed_round_shape(repo, tier, seed):
+    """Feed-maximising round: within the demand ceilings and never rising from one month to the next - C01's
+    feed / biofuel template lemmas, re-run under this property (they are part of what this round maximises over)."""
+    from contracts import C01
+    out = []
+    for o in C01.ledger_obligations(repo, tier, seed):
+        if "/feed_biofuel[" in o["name"]:
+            o = dict(o)
+            o["name"] = o["name"].replace("C01/", "C02/feed_round/")
+            out.append(o)
+    return out
+
+
 def _name_to_family(name):
     m = re.match(r"(.*)_Month_(\d+)_Variable$", name)
     if m:
@@ -261,7 +310,7 @@ def solver_call(repo, tier, seed):
 
 
 CONTRACTS = []
-EXTRA = [completeness, model_is_the_templates, pinned_consumption, solver_call]
+EXTRA = [completeness, intake_caps, feed_round_shape, model_is_the_templates, pinned_consumption, solver_call]
 TRUSTED = [
     "CBC's reported optimum is the optimum of the model it was given, within gapRel (NOT decided: no contract within reach expresses a solver's correctness)",
     "PuLP operator semantics; floats as reals",
